@@ -47,7 +47,7 @@ def eng_show(pid, tier, wd, known, replay=None):
     progs = []
     if replay is not None and replay.get("engine") == "show" and replay.get("input", {}).get("prog"):
         rp = replay["input"]["prog"]
-        for k in ("kinds", "extra_fields", "extra_impl"):
+        for k in ("kinds", "extra_fields", "extra_impl", "type_pkg"):
             rp[k] = {int(a): b for a, b in (rp.get(k) or {}).items()}
         progs = [rp]
     while len(progs) < n and replay is None:
